@@ -17,6 +17,7 @@ import (
 	"os"
 	"path/filepath"
 	"regexp"
+	"runtime"
 	"sort"
 	"strconv"
 	"strings"
@@ -240,6 +241,10 @@ func guarded(d time.Duration, f func() string) Term {
 	case t := <-ch:
 		return t
 	case <-time.After(d):
+		if os.Getenv("C09_DEBUG") != "" {
+			buf := make([]byte, 1<<20)
+			fmt.Fprintf(os.Stderr, "HANG\n%s\n", buf[:runtime.Stack(buf, true)])
+		}
 		return L(S("hang"))
 	}
 }
@@ -429,7 +434,8 @@ func c09Profile(r *Rng, allowNoTypes bool) *profile.Profile {
 		}
 		for i := range l.Line {
 			if r.P(1, 10) {
-				l.Line[i].Line = PickI(r, []int64{0, -1, 1<<63 - 1, -(1 << 63)})
+				// not MinInt64: two lines of one function 2^63 or more apart are finding F25 (witness below)
+				l.Line[i].Line = PickI(r, []int64{0, -1, 1<<63 - 1, 1 << 31, 1 << 62})
 			}
 		}
 	}
@@ -471,6 +477,22 @@ func c09Bytes(p *profile.Profile) []byte {
 	var buf bytes.Buffer
 	p.Write(&buf)
 	return buf.Bytes()
+}
+
+// c09Lines lists the distinct line numbers of the profile, sorted (class predicate of F25).
+func c09Lines(p *profile.Profile) Term {
+	seen := map[int64]bool{}
+	var ls []int64
+	for _, l := range p.Location {
+		for _, ln := range l.Line {
+			if !seen[ln.Line] {
+				seen[ln.Line] = true
+				ls = append(ls, ln.Line)
+			}
+		}
+	}
+	sort.Slice(ls, func(i, j int) bool { return ls[i] < ls[j] })
+	return Zs(ls)
 }
 
 func c09STypes(p *profile.Profile) []string {
@@ -637,7 +659,6 @@ func c09Session(c *Ctx, gen string, p *profile.Profile, lines []string, real boo
 	if err != nil {
 		return
 	}
-	out := guarded(60*time.Second, func() string { return errClass(driver.VerifC09Interactive(q, o, hook)) })
 	var vals []string
 	var ls []Term
 	skipCmp := false
@@ -652,13 +673,15 @@ func c09Session(c *Ctx, gen string, p *profile.Profile, lines []string, real boo
 	if real {
 		mode = "real"
 	}
-	in := L(S("session"), S(mode), Ss(c09STypes(q)), S(q.DefaultSampleType), L(ls...), pfTable(vals))
+	in := L(S("session"), S(mode), Ss(c09STypes(q)), S(q.DefaultSampleType), L(ls...), pfTable(vals), c09Lines(q))
+	c09Announce(gen, in)
+	out := guarded(60*time.Second, func() string { return errClass(driver.VerifC09Interactive(q, o, hook)) })
 	obs := L(out, L(ui.events...), c09Dump(driver.VerifC09Current()), L(results...))
 	tags := []string{"op:session-" + mode}
 	if skipCmp {
 		tags = append(tags, "non-ascii-line")
 	}
-	c.Case(gen, in, obs, len(lines) > 0, tags...)
+	c09Emit(c, gen, in, obs, len(lines) > 0, tags...)
 	c09Cleanup()
 }
 
@@ -667,6 +690,10 @@ type c09Req struct{ path, rawq string }
 // c09Web drives driver.PProf with -http and a plugin HTTPServer that fires the requests at the
 // registered handlers (httptest); a final plain /top request checks that the session still answers.
 func c09Web(c *Ctx, gen string, p *profile.Profile, cliArgs []string, reqs []c09Req) {
+	c09WebD(c, gen, p, cliArgs, reqs, 20*time.Second)
+}
+
+func c09WebD(c *Ctx, gen string, p *profile.Profile, cliArgs []string, reqs []c09Req, deadline time.Duration) {
 	driver.VerifC09Reset()
 	ui := &c09UI{}
 	var statuses []Term
@@ -678,7 +705,7 @@ func c09Web(c *Ctx, gen string, p *profile.Profile, cliArgs []string, reqs []c09
 				statuses = append(statuses, L(S("nohandler")))
 				continue
 			}
-			st := guarded(20*time.Second, func() string {
+			st := guarded(deadline, func() string {
 				req := httptest.NewRequest("GET", "http://localhost"+rq.path, nil)
 				req.URL.RawQuery = rq.rawq
 				w := httptest.NewRecorder()
@@ -692,7 +719,6 @@ func c09Web(c *Ctx, gen string, p *profile.Profile, cliArgs []string, reqs []c09
 	args := append(append([]string{"-http=localhost:8080"}, cliArgs...), "p")
 	fl := newC09Flags(args)
 	o := &plugin.Options{UI: ui, Obj: &c09Obj{}, Sym: c09Sym{}, Writer: &c09Writer{}, Flagset: fl, Fetch: c09Fetch{c09Bytes(p)}, HTTPServer: server}
-	out := guarded(120*time.Second, func() string { return errClass(driver.PProf(o)) })
 	var rs []Term
 	for _, rq := range reqs {
 		vals, perr := url.ParseQuery(rq.rawq)
@@ -710,8 +736,10 @@ func c09Web(c *Ctx, gen string, p *profile.Profile, cliArgs []string, reqs []c09
 		}
 		rs = append(rs, L(S(rq.path), S(rq.rawq), L(ps...), pfTable(vs)))
 	}
-	in := L(S("web"), Ss(cliArgs), L(rs...), ZI(len(p.SampleType)))
-	c.Case(gen, in, L(out, L(statuses...)), len(reqs) > 1, "op:web")
+	in := L(S("web"), Ss(cliArgs), L(rs...), ZI(len(p.SampleType)), c09Lines(p))
+	c09Announce(gen, in)
+	out := guarded(120*time.Second, func() string { return errClass(driver.PProf(o)) })
+	c09Emit(c, gen, in, L(out, L(statuses...)), len(reqs) > 1, "op:web")
 	c09Cleanup()
 }
 
@@ -721,6 +749,8 @@ func c09CLI(c *Ctx, gen string, p *profile.Profile, args []string, lines []strin
 	fl := newC09Flags(args)
 	o := &plugin.Options{UI: ui, Obj: &c09Obj{}, Sym: c09Sym{}, Writer: &c09Writer{}, Flagset: fl, Fetch: c09Fetch{c09Bytes(p)},
 		HTTPServer: func(*plugin.HTTPServerArgs) error { return nil }}
+	in := L(S("cli"), Ss(args), Ss(ui.lines), ZI(len(p.SampleType)), c09Lines(p))
+	c09Announce(gen, in)
 	out := guarded(60*time.Second, func() string {
 		err := driver.PProf(o)
 		if err != nil && os.Getenv("C09_DEBUG") != "" {
@@ -728,13 +758,15 @@ func c09CLI(c *Ctx, gen string, p *profile.Profile, args []string, lines []strin
 		}
 		return errClass(err)
 	})
-	c.Case(gen, L(S("cli"), Ss(args), Ss(ui.lines), ZI(len(p.SampleType))), L(out), len(args) > 1, "op:cli")
+	c09Emit(c, gen, in, L(out), len(args) > 1, "op:cli")
 	c09Cleanup()
 }
 
 // ------------------------------------------------------------------ driver
 
-func runC09(c *Ctx) {
+// c09Env confines everything a run can touch to the scratch directory (cwd) and makes sure no
+// external program can be started.
+func c09Env() {
 	cwd, _ := os.Getwd()
 	c09Scratch = cwd
 	// nothing generated here may leave the scratch directory or start a program
@@ -753,21 +785,49 @@ func runC09(c *Ctx) {
 	if dn, err := os.OpenFile(os.DevNull, os.O_WRONLY, 0); err == nil {
 		os.Stdout = dn
 	}
-	c.Extra["field_kinds_supported"] = driver.VerifC09FieldKindsSupported()
 
+}
+
+// c09QueryGen returns a generator of URL query strings over the URL parameters of the config fields.
+func c09QueryGen(r *Rng) func() string {
+	var urlparams []string
+	urlkind := map[string]string{}
+	for _, f := range driver.VerifC09Default() {
+		if f.URLParam != "" {
+			urlparams = append(urlparams, f.URLParam)
+			urlkind[f.URLParam] = f.Kind
+		}
+	}
+	urlparams = append(urlparams, "zz", "f", "config", "output", "source_path")
+	return func() string {
+		var parts []string
+		for k := r.Intn(4); k >= 0; k-- {
+			pn := PickS(r, urlparams)
+			v := c09Value(r, urlkind[pn], pn)
+			switch r.Intn(8) {
+			case 0:
+				parts = append(parts, pn) // no '='
+			case 1:
+				parts = append(parts, pn+"="+v) // unescaped
+			default:
+				parts = append(parts, url.QueryEscape(pn)+"="+url.QueryEscape(v))
+			}
+		}
+		sep := "&"
+		if r.P(1, 12) {
+			sep = ";"
+		}
+		return strings.Join(parts, sep)
+	}
+}
+
+func runC09(c *Ctx) {
+	c09Env()
+	c.Extra["field_kinds_supported"] = driver.VerifC09FieldKindsSupported()
 	names, kinds, choices := c09ConfigNames()
 	cmds, _ := driver.VerifC09Commands()
 	r := c.R
 
-	// --- a profile without sample types never reaches the interactive loop or the web handlers:
-	// fetchProfiles rejects it ("empty common sample type list"); the model predicts "error".
-	// (interactive()'s `o` command would index st[len(st)-1] on it.)
-	{
-		p0 := &profile.Profile{Comments: []string{"no sample types"}}
-		c09CLI(c, "no-sample-types", p0, []string{"p"}, []string{"o"})
-		c09CLI(c, "no-sample-types", p0, []string{"-top", "p"}, nil)
-		c09Web(c, "no-sample-types", p0, nil, []c09Req{{"/top", ""}})
-	}
 	// --- tag ranges: the pool, then grammar-generated strings
 	for _, f := range c09TagRanges {
 		c09TagRange(c, "tagrange-pool", f)
@@ -824,35 +884,7 @@ func runC09(c *Ctx) {
 		}
 	}
 	// --- applyURL
-	var urlparams []string
-	urlkind := map[string]string{}
-	for _, f := range driver.VerifC09Default() {
-		if f.URLParam != "" {
-			urlparams = append(urlparams, f.URLParam)
-			urlkind[f.URLParam] = f.Kind
-		}
-	}
-	urlparams = append(urlparams, "zz", "f", "config", "output", "source_path")
-	genQuery := func() string {
-		var parts []string
-		for k := r.Intn(4); k >= 0; k-- {
-			pn := PickS(r, urlparams)
-			v := c09Value(r, urlkind[pn], pn)
-			switch r.Intn(8) {
-			case 0:
-				parts = append(parts, pn) // no '='
-			case 1:
-				parts = append(parts, pn+"="+v) // unescaped
-			default:
-				parts = append(parts, url.QueryEscape(pn)+"="+url.QueryEscape(v))
-			}
-		}
-		sep := "&"
-		if r.P(1, 12) {
-			sep = ";"
-		}
-		return strings.Join(parts, sep)
-	}
+	genQuery := c09QueryGen(r)
 	for k := 0; k < c.Budget(600, 20000); k++ {
 		c09URL(c, "url-random", genQuery())
 	}
@@ -879,70 +911,10 @@ func runC09(c *Ctx) {
 		c09Session(c, "session-hook", p, lines, false)
 	}
 
-	// --- exploration: sessions with real reports, web requests, command lines
-	t0 := time.Now()
-	for k := 0; k < c.Budget(400, 40000); k++ {
-		p := c09Profile(r, false)
-		var lines []string
-		for j := 1 + r.Intn(4); j > 0; j-- {
-			lines = append(lines, c09Line(r, names, kinds, choices, cmds, c09STypes(p)))
-		}
-		c09Session(c, "session-real", p, lines, true)
-	}
-	c.Extra["session_real_wall_s"] = time.Since(t0).Seconds()
-	t0 = time.Now()
-	paths := []string{"/", "/top", "/disasm", "/source", "/peek", "/flamegraph", "/flamegraph2", "/flamegraphold", "/saveconfig", "/deleteconfig", "/download"}
-	for k := 0; k < c.Budget(150, 10000); k++ {
-		p := c09Profile(r, true)
-		var reqs []c09Req
-		for j := 1 + r.Intn(5); j > 0; j-- {
-			reqs = append(reqs, c09Req{PickS(r, paths), genQuery()})
-		}
-		var cli []string
-		if r.P(1, 3) {
-			n := PickS(r, names)
-			cli = append(cli, "-"+n+"="+c09Value(r, kinds[n], n))
-		}
-		c09Web(c, "web", p, cli, reqs)
-	}
-	c.Extra["web_wall_s"] = time.Since(t0).Seconds()
-	t0 = time.Now()
-	for k := 0; k < c.Budget(400, 30000); k++ {
-		p := c09Profile(r, true)
-		var args []string
-		if !r.P(1, 8) {
-			cn := PickS(r, cmds)
-			if cn == "list" || cn == "peek" || cn == "disasm" || cn == "weblist" {
-				args = append(args, "-"+cn+"="+PickS(r, c09Regexps))
-			} else {
-				args = append(args, "-"+cn)
-			}
-		}
-		for j := r.Intn(4); j > 0; j-- {
-			n := PickS(r, names)
-			if r.P(1, 8) {
-				n = PickS(r, []string{"buildid", "add_comment", "symbolize", "base", "diff_base", "seconds", "timeout", "inuse_space", "mean_delay", "contentions", "no_browser", "zz", "cum", "flat", "lines", "files"})
-			}
-			v := c09Value(r, kinds[n], n)
-			if kinds[n] == "" {
-				v = PickS(r, []string{"a", "ab", "x", "", "1", "p", "bad", "none", "force", "true"})
-			}
-			args = append(args, "-"+n+"="+v)
-		}
-		switch r.Intn(10) {
-		case 0:
-			args = append(args, "bad")
-		case 1:
-			args = append(args, "p", "p")
-		case 2:
-		default:
-			args = append(args, "p")
-		}
-		var lines []string
-		if r.P(1, 3) {
-			lines = append(lines, c09Line(r, names, kinds, choices, cmds, c09STypes(p)))
-		}
-		c09CLI(c, "cli", p, args, lines)
-	}
-	c.Extra["cli_wall_s"] = time.Since(t0).Seconds()
+	// --- exploration: sessions with real reports, web requests, command lines.  Each stream runs in
+	// a child process of this harness: pprof fetches profiles in goroutines of its own, a panic
+	// there kills the process (no recover() can catch it) -- which is an observable here.
+	c09RunChildren(c, []string{"session-real", "web", "cli"})
 }
+
+
